@@ -21,7 +21,7 @@ import (
 // and (test scope) snapshots running alongside. Exactly-once delivery of every
 // recorded value must not depend on which goroutine won the first-use race.
 type ConcCase struct {
-	Mode    string  `json:"mode"` // test plain cached
+	Mode    string  `json:"mode"`    // test plain cached
 	Workers [][]int `json:"workers"` // per goroutine: timer name indices, in order (each use = obtain by name + Record of a unique value)
 	Sub     bool    `json:"sub"`     // on a subscope instead of the root
 	Passes  int     `json:"passes"`
@@ -158,6 +158,6 @@ func TestConcurrent(t *testing.T) {
 	pbt.Main(t, pbt.Prop[ConcCase]{
 		ID: "C10", Name: "concurrent",
 		Rule: "free-running mode (real parallelism, built with -race, seeded Gosched perturbation at the verif hooks): 2..8 goroutines make first use of timers with 1..3 overlapping names on one scope (reporter-less test scope, plain or cached reporter; root or subscope) and record unique durations through the handle they get, while another goroutine runs report passes / snapshots. Oracle: per timer name the multiset of delivered durations (Snapshot().Timers() values, or ReportTimer calls) equals the multiset recorded - exactly one delivery per Record whichever goroutine won the first-use race; no panic; no race report. Non-trivial: two goroutines use the same name. The program is replayable, the schedule is not (replays retried).",
-		Gen:  genConc, Run: runConc, Retries: 40,
+		Gen:  genConc, Run: runConc, Retries: 40, HangAfter: 60 * time.Second,
 	})
 }
